@@ -10,10 +10,13 @@ use core::cmp::min;
 // We use a more standard one but our HSL numbers will not coincide with Excel's
 
 pub fn hex_to_rgb(h: &str) -> [i32; 3] {
-    let r = i32::from_str_radix(&h[1..3], 16).unwrap();
-    let g = i32::from_str_radix(&h[3..5], 16).unwrap();
-    let b = i32::from_str_radix(&h[5..7], 16).unwrap();
-    [r, g, b]
+    // A channel that is not two hex digits (a theme read from a damaged file) reads as 0
+    let channel = |start: usize| {
+        h.get(start..start + 2)
+            .and_then(|digits| i32::from_str_radix(digits, 16).ok())
+            .unwrap_or(0)
+    };
+    [channel(1), channel(3), channel(5)]
 }
 
 pub fn rgb_to_hex(rgb: [i32; 3]) -> String {
